@@ -26,7 +26,7 @@ RULE = ("Each run draws a nested structure (lists, dicts, attribute-bearing obje
         "non-tensor leaves; <=12 tensor slots; nesting <=4; shapes 0-d..2-d incl. zero-numel and the "
         "zero-tensor structure), an aliasing pattern of its slots over a pool of distinct tensors, and a "
         "history of <=10 (quick) operations on one Packer: list/flat getters, list/flat constructors with "
-        "valid and invalid arguments, caller mutation of a returned structure, caller mutation of the "
+        "valid and invalid arguments, caller mutation of a returned structure, of the list a getter returned, of the "
         "original. Oracle = reference model (slots in traversal order, unique = first occurrence by identity). "
         "A case is non-trivial iff the structure has >=1 container and the history contains >=1 constructor "
         "call that the model says must succeed; distinct = distinct (structure shape signature, alias "
@@ -59,6 +59,28 @@ class FrozenBag(object):
 
     def __delattr__(self, k):
         raise AttributeError("FrozenBag is read-only")
+
+
+import enum
+import types
+
+
+class Color(enum.Enum):
+    RED = 1
+    BLUE = 2
+
+
+def is_atomic(o):
+    """classes, functions and modules carry a __dict__ but are content, not containers (deepcopy hands them back
+    as they are): the model does not look inside them"""
+    return isinstance(o, (type, types.FunctionType, types.BuiltinFunctionType, types.MethodType, types.ModuleType))
+
+
+def make_func(t):
+    def activation(x):
+        return x
+    activation.scale = t         # a tensor carried by a function object: content, never a slot
+    return activation
 
 
 class Leaf(object):
@@ -115,9 +137,11 @@ def gen_structure(cs, pool, budget, depth, sig, root=False, in_tuple=False, done
         sig.append("T")
         return ("__slot__", i)
     if k == 5:  # non-tensor leaf
-        j = cs.draw(6, "leaf")
+        j = cs.draw(9, "leaf")
         sig.append("l%d" % j)
-        return [7, "s", 2.5, None, ("__leaf__", 3), True][j]
+        if j == 7:
+            return ("__func__", cs.draw(len(pool), "fpool"))
+        return [7, "s", 2.5, None, ("__leaf__", 3), True, ("__class__",), None, ("__enum__",)][j]
     if k == 6:  # a small torch.nn.Module as attribute-bearing object
         if budget[0] <= 0:
             sig.append("n")
@@ -182,6 +206,12 @@ def _realise(spec, pool, memo):
         return pool[spec[1]]
     if isinstance(spec, tuple) and spec and spec[0] == "__leaf__":
         return Leaf(spec[1])
+    if isinstance(spec, tuple) and spec and spec[0] == "__class__":
+        return float
+    if isinstance(spec, tuple) and spec and spec[0] == "__enum__":
+        return Color.RED
+    if isinstance(spec, tuple) and spec and spec[0] == "__func__":
+        return make_func(pool[spec[1]])
     if isinstance(spec, tuple) and spec and spec[0] == "__module__":
         m = torch.nn.Module()
         t = pool[spec[1]]
@@ -220,7 +250,7 @@ def model_slots(obj, tuples=False):
     elif isinstance(obj, dict):
         for e in obj.values():
             res.extend(model_slots(e, tuples))
-    elif hasattr(obj, "__dict__"):
+    elif hasattr(obj, "__dict__") and not is_atomic(obj):
         for e in obj.__dict__.values():
             res.extend(model_slots(e, tuples))
     return res
@@ -241,7 +271,7 @@ def model_phys(obj, tuples=False, out=None):
         elif isinstance(o, dict):
             for k, e in o.items():
                 walk(e, (id(o), repr(k)))
-        elif hasattr(o, "__dict__"):
+        elif hasattr(o, "__dict__") and not is_atomic(o):
             for k, e in o.__dict__.items():
                 walk(e, (id(o), k))
     walk(obj, ("root", 0))
@@ -270,6 +300,8 @@ def snapshot(obj):
         return ("D", id(obj), [(k, snapshot(v)) for k, v in obj.items()])
     if isinstance(obj, tuple):
         return ("U", id(obj), [snapshot(e) for e in obj])
+    if isinstance(obj, (type, types.ModuleType, enum.Enum)):
+        return ("P", repr(obj))
     if hasattr(obj, "__dict__"):
         return ("O", id(obj), type(obj), [(k, snapshot(v)) for k, v in obj.__dict__.items()])
     if isinstance(obj, Leaf):
@@ -360,7 +392,7 @@ def compare_result(res, ref, expected, pos, foreign_ids, path="root"):
                 # opaque content: equal element-wise, tensors inside are NOT slots (they stay the original tensors)
                 compare_opaque(a, b, foreign_ids, "%s(%d)" % (path, i))
         return
-    if hasattr(ref, "__dict__"):
+    if hasattr(ref, "__dict__") and not is_atomic(ref) and not isinstance(ref, enum.Enum):
         if type(res) is not type(ref) or list(res.__dict__.keys()) != list(ref.__dict__.keys()):
             raise Mismatch("shape", "%s: object attrs differ: %s" % (path, _short(res)))
         if id(res) in foreign_ids:
@@ -373,13 +405,24 @@ def compare_result(res, ref, expected, pos, foreign_ids, path="root"):
 
 
 def compare_opaque(res, ref, foreign_ids, path):
+    if isinstance(ref, types.FunctionType):
+        # a function object is content: the same kind of function carrying an unchanged tensor
+        if not isinstance(res, types.FunctionType) or res.__name__ != ref.__name__ or \
+                not torch.equal(res.__dict__["scale"].detach(), ref.__dict__["scale"].detach()) or \
+                res.__dict__["scale"] is not ref.__dict__["scale"]:
+            raise Mismatch("content", "%s: function leaf (or the tensor it carries) changed" % path)
+        return
+    if isinstance(ref, (type, enum.Enum)):
+        if res is not ref:
+            raise Mismatch("content", "%s: class / enum member leaf changed" % path)
+        return
     if isinstance(ref, torch.Tensor):
         # a tensor inside an opaque tuple is content: the same tensor or a copy of it, never something else
         if not isinstance(res, torch.Tensor) or tuple(res.shape) != tuple(ref.shape) or \
                 not torch.equal(res.detach(), ref.detach()):
             raise Mismatch("opaque_tensor", "%s: tensor inside a tuple changed" % path)
         return
-    if isinstance(ref, (list, dict)) or hasattr(ref, "__dict__"):
+    if isinstance(ref, (list, dict)) or (hasattr(ref, "__dict__") and not is_atomic(ref)):
         if id(res) in foreign_ids:
             raise Mismatch("shared_container", "%s: container is shared with %s" % (path, foreign_ids[id(res)]))
         if type(res) is not type(ref):
@@ -436,7 +479,7 @@ def container_ids(obj, tag, out, inside_opaque=False):
     elif isinstance(obj, tuple):
         for e in obj:
             container_ids(e, tag, out)
-    elif hasattr(obj, "__dict__"):
+    elif hasattr(obj, "__dict__") and not is_atomic(obj) and not isinstance(obj, enum.Enum):
         out[id(obj)] = tag
         for e in obj.__dict__.values():
             container_ids(e, tag, out)
@@ -457,7 +500,7 @@ def keep_alive(obj, out):
         out.append(obj)
         for e in obj.values():
             keep_alive(e, out)
-    elif hasattr(obj, "__dict__") or isinstance(obj, Leaf):
+    elif (hasattr(obj, "__dict__") and not is_atomic(obj) and not isinstance(obj, enum.Enum)) or isinstance(obj, Leaf):
         out.append(obj)
         for e in getattr(obj, "__dict__", {}).values():
             keep_alive(e, out)
@@ -486,7 +529,8 @@ def mutate_containers(obj, step):
     elif isinstance(obj, Leaf):
         obj.v = "mut%d" % step
         n += 1
-    elif hasattr(obj, "__dict__") and not isinstance(obj, torch.Tensor):
+    elif hasattr(obj, "__dict__") and not isinstance(obj, torch.Tensor) and not is_atomic(obj) and \
+            not isinstance(obj, enum.Enum):
         for e in list(obj.__dict__.values()):
             n += mutate_containers(e, step)
         obj.__dict__["mut%d" % step] = step
@@ -497,6 +541,10 @@ def mutate_containers(obj, step):
 
 
 # ------------------------------------------------------------------ one run
+def prereq_flat(st, u):
+    return bool(st["GT"][u])
+
+
 def make_pool(cs):
     npool = cs.randint(1, 6, "npool")
     g = torch.Generator()
@@ -553,9 +601,15 @@ def run(cs, cfg):
     has_container = not isinstance(obj, torch.Tensor)
 
     orig_snap = snapshot(obj)
-    with warnings.catch_warnings():
-        warnings.simplefilter("ignore")
-        packers = [Packer(obj)]
+    try:
+        with warnings.catch_warnings():
+            warnings.simplefilter("ignore")
+            packers = [Packer(obj)]
+    except Exception as e:       # every generated structure is a legal input
+        viol.append({"sig": {"inv": "init_raises", "op": "init", "exc": type(e).__name__, "zero": str(zero)},
+                     "detail": "Packer(obj) raised %s: %s | structure=%s" % (type(e).__name__, str(e)[:200], decoded["structure"])})
+        return {"violations": viol, "stats": stats, "cases": cases, "decoded": decoded,
+                "digest": SIM.digest(), "evals": 1, "events": 0}
     if not snap_equal(orig_snap, snapshot(obj)):
         viol.append({"sig": {"inv": "original_modified", "op": "init", "zero": str(zero)},
                      "detail": "constructing the Packer modified the original"})
@@ -619,6 +673,14 @@ def run(cs, cfg):
                     raise Mismatch("getter_list", "get_param_tensor_list(unique=%s) returned %d tensors; model %d, "
                                    "or identities/order differ" % (u, len(r), len(tgt)))
                 cnt("op.GL")
+                if cs.bool("edit_getter_list", 1, 3):
+                    # the caller edits the list it was handed (it is the caller's list): no later answer may change
+                    if r:
+                        r[0] = r[0] * 2.0
+                        r.pop()
+                    r.append(fresh((2,)))
+                    rec["caller_edited_list"] = True
+                    cnt("reach.getter_list_edited")
             elif op == 1:      # flat getter
                 rec.update(op="GT", unique=u)
                 opseq.append("GT%d" % u)
@@ -669,8 +731,13 @@ def run(cs, cfg):
                 else:
                     if len(tgt) == 0:
                         a = torch.empty(0, dtype=torch.float64)
-                        bad = 0
-                        rec["arg"] = "valid"
+                        if bad != 0 and prereq_flat(st, u):
+                            a = fresh((1 + cs.draw(2, "extra0"),))
+                            bad = 1
+                            rec["arg"] = "wrong_numel"
+                        else:
+                            bad = 0
+                            rec["arg"] = "valid"
                     elif len(tgt) == 1:
                         a = fresh(tgt[0].shape)
                     else:
@@ -689,6 +756,9 @@ def run(cs, cfg):
                         a = fresh((a.numel() + 1 + cs.draw(2, "extra"),))
                         bad = 1
                         rec["arg"] = "wrong_numel"
+                    if bad != 0 and not prereq_flat(st, u):
+                        # without its getter the constructor raises anyway: that tells nothing about the argument
+                        bad = 0 if len(tgt) == 0 else bad
                     call = lambda: pk.construct_from_tensor(a, unique=u)
                     if bad == 0:
                         parts = []
